@@ -300,4 +300,96 @@ theorem timeout_resends_with_retry_left (s s' : St) (p : Packet) (o : OutRec) (b
     refine ⟨e2.symm, by simp, by simp, ?_, by simp, by simp⟩
     intro hne; simp [upd_other _ _ _ _ hne]
 
+
+/-! ## funds -/
+
+/-- FUNDS, exact for ALL inputs. A successful receive of a swap packet (whatever the legs, whatever the strategy)
+    changes the swap module account by exactly `received − swappedIn` of the input denom and by nothing else: the whole
+    swap output leaves it (interface fee to the provider, the rest to the receiver), change and forward transfers are paid
+    by the receiver. Boundary hypotheses on the reported swap: the fee is non-negative and zero without a provider;
+    addresses: receiver, pool, provider and the destination channel's escrow account are not the module account. -/
+theorem recv_module_balance (s s' : St) (p : Packet) (m : SwapMeta) (ai ao fee : Int) (oa : Option Ack)
+    (hm : p.memo = .swap m) (hrc : p.receiver ≠ swapMod) (hp : m.pool ≠ swapMod)
+    (hpr : ∀ pr, m.provider = some pr → pr ≠ swapMod) (hfee : 0 ≤ fee ∧ (m.provider = none → fee = 0))
+    (he : escrow p.dst ≠ swapMod)
+    (h : onRecv s p (.ok ai ao fee) = .ok (s', oa)) (dd : Denom) :
+    s'.bank.bal swapMod dd = s.bank.bal swapMod dd + (if dd = m.routeIn then p.amount - ai else 0) := by
+  unfold onRecv at h
+  rw [hm] at h
+  simp only at h
+  split at h
+  · simp at h
+  · rename_i hroute
+    have hroute' : m.routeIn = denomForThisChain p := by
+      cases hq : decide (m.routeIn = denomForThisChain p) with
+      | true => exact of_decide_eq_true hq
+      | false => exact absurd (of_decide_eq_false hq) (by simpa using hroute)
+    obtain ⟨b, hb, h⟩ := bind_ok h
+    have e1 := appRecv_mod he hb dd
+    have e2 := swapAndProcess_mod hrc hp hpr hfee h dd
+    simp only at e2
+    rw [e2, e1, ← hroute']
+    by_cases q : dd = m.routeIn
+    · simp only [q, if_true]; omega
+    · simp only [q, if_false]; omega
+
+/-- FUNDS CONSERVED, partial: EXTRA HYPOTHESIS `ai = p.amount` — the swap consumed everything that was received
+    (always the case for exact-amount-in). Then the swap module's own account is left as it was, in every denom.
+    Without it the remainder stays in the module account (known findings F-C11-remainder-kept / F-C11-change-from-receiver,
+    witnesses in Witness/C11.lean). -/
+theorem funds_conserved_partial (s s' : St) (p : Packet) (m : SwapMeta) (ai ao fee : Int) (oa : Option Ack)
+    (hm : p.memo = .swap m) (hrc : p.receiver ≠ swapMod) (hp : m.pool ≠ swapMod)
+    (hpr : ∀ pr, m.provider = some pr → pr ≠ swapMod) (hfee : 0 ≤ fee ∧ (m.provider = none → fee = 0))
+    (he : escrow p.dst ≠ swapMod) (hall : ai = p.amount)
+    (h : onRecv s p (.ok ai ao fee) = .ok (s', oa)) (dd : Denom) :
+    s'.bank.bal swapMod dd = s.bank.bal swapMod dd := by
+  have := recv_module_balance s s' p m ai ao fee oa hm hrc hp hpr hfee he h dd
+  rw [this, hall]; simp
+
+/-- the legs' events never touch the module account: acknowledgements and timeouts of packets sent by somebody else
+    refund that sender -/
+theorem leg_events_leave_module (b b' : Bank) (p : Packet) (hs : p.sender ≠ swapMod) (he : escrow p.src ≠ swapMod)
+    (h : appRefund b p = .ok b') (dd : Denom) : b'.bal swapMod dd = b.bal swapMod dd := by
+  have hs' : swapMod ≠ p.sender := fun e => hs e.symm
+  have ht : swapMod ≠ transferMod := fun e => transferMod_ne e.symm
+  have he' : swapMod ≠ escrow p.src := fun e => he e.symm
+  unfold appRefund at h
+  split at h
+  · simp at h
+  split at h
+  · simp at h
+  split at h
+  · obtain ⟨b1, h1, h2⟩ := bind_ok h
+    rw [send_bal h2, mint_bal h1 _ _ ht]; simp [hs', ht]
+  · rw [send_bal h]; simp [hs', he']
+
+
+/-! ## non-vacuity: a complete concrete history (exact-in, forward leg acknowledged, ack relayed home) -/
+
+def exBank : Bank := ((Bank.empty.credit "a0" "channel-1/uaaa" 1000).credit "escrow:channel-0" "uaaa" 5000).credit "pool0" "ubbb" 5000
+def exMemo : Memo := .swap { routeIn := "uaaa", routeOut := "ubbb", pool := "pool0", strat := .exactIn, provider := none,
+                             forward := some { ch := "channel-0", receiver := "a3", retries := 2 } }
+def exOps : List Op :=
+  [ .transfer "a0" "channel-1" "channel-1/uaaa" 1000 "a1" exMemo,   -- user sends the voucher home with a swap memo
+    .recv "channel-1" 1 (.ok 1000 990 0) "-",                       -- swap, forward leg channel-0/1 is sent, NO ack yet
+    .recv "channel-0" 1 .err "-",                                    -- far side receives the forward leg
+    .ack "channel-0" 1,                                              -- its acknowledgement completes the incoming packet
+    .ack "channel-1" 1 ]                                             -- combined acknowledgement relayed to the sender's side
+def exStart : St := { bank := exBank }
+
+example : Fresh exStart := ⟨rfl, rfl, rfl, rfl⟩
+/-- after the receive: a waiting record with an outstanding leg and no acknowledgement (hypotheses of `ack_only_after_all_legs`) -/
+example : ((run exStart (exOps.take 2)).inc ⟨"channel-0", 1⟩).isSome = true
+    ∧ ((run exStart (exOps.take 2)).acks ⟨"channel-0", 1⟩).isNone = true := by decide
+/-- at the end: exactly one acknowledgement for the incoming packet, reporting the forward leg's own `S`; records gone;
+    the module account holds nothing; the receiver's output went onward -/
+example : (run exStart exOps).acks ⟨"channel-0", 1⟩ = some ⟨true, "R[1000,990,S,-,S]"⟩
+    ∧ ((run exStart exOps).ackLog.filter (fun e => e.1 = ⟨"channel-0", 1⟩)).length = 1
+    ∧ ((run exStart exOps).inc ⟨"channel-0", 1⟩).isNone = true ∧ ((run exStart exOps).out ⟨"channel-0", 1⟩).isNone = true
+    ∧ (run exStart exOps).bank.bal swapMod "uaaa" = 0 ∧ (run exStart exOps).bank.bal swapMod "ubbb" = 0
+    ∧ (run exStart exOps).bank.bal "escrow:channel-0" "ubbb" = 990 := by decide
+/-- a failing swap is refused: error acknowledgement, balances untouched (hypotheses of `failed_swap_refused`) -/
+example : (run exStart [exOps.head!, .recv "channel-1" 1 .err "E5"]).acks ⟨"channel-0", 1⟩ = some ⟨false, "E5"⟩
+    ∧ (run exStart [exOps.head!, .recv "channel-1" 1 .err "E5"]).bank.bal "escrow:channel-0" "uaaa" = 5000 := by decide
+
 end Sunrise.C11
